@@ -86,6 +86,22 @@ void *memset (void *d, int c, size_t n) {
     for (size_t i = 0; i < n; i++) ((char *) d)[i] = (char) c;
   return d;
 }
+size_t strlen (const char *s) { size_t n = 0; while (s[n] != 0) n++; return n; }
+int strcmp (const char *a, const char *b) {
+  for (size_t i = 0;; i++) {
+    unsigned char x = (unsigned char) a[i], y = (unsigned char) b[i];
+    if (x != y) return x < y ? -1 : 1;
+    if (x == 0) return 0;
+  }
+}
+int strncmp (const char *a, const char *b, size_t n) {
+  for (size_t i = 0; i < n; i++) {
+    unsigned char x = (unsigned char) a[i], y = (unsigned char) b[i];
+    if (x != y) return x < y ? -1 : 1;
+    if (x == 0) return 0;
+  }
+  return 0;
+}
 int memcmp (const void *a, const void *b, size_t n) {
   for (size_t i = 0; i < n; i++) {
     unsigned char x = ((const unsigned char *) a)[i], y = ((const unsigned char *) b)[i];
@@ -118,9 +134,14 @@ static struct { void *p; size_t req; int live; } h_ledger[H_SLOT_MAX];
 static int h_ledger_n;
 static int h_alloc_errors; /* ledger violations (checked by C17/C19 harnesses) */
 static int h_ledger_find (void *p) {
+#ifdef H_NO_LEDGER /* allocation discipline is not the subject: no bookkeeping (pointer comparisons are costly) */
+  (void) p;
+  return -1;
+#else
   for (int i = 0; i < h_ledger_n; i++)
     if (h_ledger[i].p == p) return i;
   return -1;
+#endif
 }
 /* H_POOL_HOOK (seq, n): optional harness function; when it returns non-NULL for the seq-th
    allocation, that (statically TYPED) array is used as the block.  CBMC mode only: arrays of
@@ -149,8 +170,10 @@ static void *h_slot_malloc (size_t n, void *ud) {
   }
 #endif
   h_alloc_seq++;
+#ifndef H_NO_LEDGER
   h_ledger[h_ledger_n].p = p; h_ledger[h_ledger_n].req = n; h_ledger[h_ledger_n].live = 1;
   h_ledger_n++;
+#endif
   return p;
 }
 static void *h_slot_calloc (size_t a, size_t b, void *ud) {
@@ -163,7 +186,9 @@ static void *h_slot_realloc (void *p, size_t old, size_t n, void *ud) {
   (void) ud;
   if (p == NULL) return h_slot_malloc (n, ud);
   int i = h_ledger_find (p);
+#ifndef H_NO_LEDGER
   if (i < 0 || !h_ledger[i].live || h_ledger[i].req != old) h_alloc_errors++;
+#endif
 #if defined(REPLAY)
   p = realloc (p, n ? n : 1);
   H_ASSUME (p != NULL);
@@ -178,7 +203,9 @@ static void h_slot_free (void *p, void *ud) {
   (void) ud;
   if (p == NULL) return;
   int i = h_ledger_find (p);
+#ifndef H_NO_LEDGER
   if (i < 0 || !h_ledger[i].live) h_alloc_errors++;
+#endif
   if (i >= 0) h_ledger[i].live = 0;
 #ifdef REPLAY
   if (i >= 0) free (p);
